@@ -148,12 +148,15 @@ func (c *Collection) DeleteSubDocPaths(
 			cas: newCas,
 		}
 		var revSeqNo uint64
-		row := txn.QueryRow(`SELECT value, xattrs, revSeqNo FROM documents WHERE collection=?1 AND key=?2`, c.id, key)
+		row := txn.QueryRow(`SELECT value, xattrs, revSeqNo, isJSON, exp FROM documents WHERE collection=?1 AND key=?2`, c.id, key)
 		var rawXattrs []byte
-		err := scan(row, &e.value, &rawXattrs, &revSeqNo)
+		err := scan(row, &e.value, &rawXattrs, &revSeqNo, &e.isJSON, &e.exp)
 		if err != nil {
 			return nil, remapKeyError(err, key)
 		}
+		revSeqNo++
+		e.revSeqNo = revSeqNo
+		e.isDeletion = (e.value == nil)
 		if rawXattrs, err = removeXattrs(rawXattrs, xattrKeys...); err != nil {
 			return nil, err
 		}
